@@ -212,7 +212,8 @@ func underRoot(rel, sub string) bool { return strings.HasPrefix(rel, "root/"+sub
 func treeCommands(t *crsTree, r *Rng) []treeCmd {
 	isRA := func(rel string) bool { return underRoot(rel, "regex-assembly/") && strings.HasSuffix(rel, ".ra") }
 	isRules := func(rel string) bool {
-		return underRoot(rel, "rules/") && strings.Contains(filepath.Base(rel), "-942-")
+		// THE rules file of the addressed rule: the generated one, not a backup copy beside it
+		return underRoot(rel, "rules/") && filepath.Base(rel) == t.rules.Name
 	}
 	isTest := func(rel string) bool {
 		b := filepath.Base(rel)
@@ -342,7 +343,7 @@ func suiteTreeFrame(env *Env, res *Result) {
 					if strings.HasPrefix(x.cmd.name, "format ") && !strings.HasSuffix(p, ".ra") && strings.HasPrefix(p, "root/regex-assembly/include/") {
 						shape = "c15_format_argument_not_ra"
 					}
-					if strings.HasPrefix(x.cmd.name, "renumber") && underRoot(p, "tests/regression/tests/") {
+					if strings.HasPrefix(x.cmd.name, "renumber") && underRoot(p, "tests/regression/tests/") && !strings.Contains(filepath.Base(p), ".") {
 						shape = "c15_renumber_name_without_extension"
 					}
 					res.addFailure(Failure{Kind: "C15", Shape: shape, Input: input, Detail: p})
